@@ -181,6 +181,27 @@ func (wc *wrapCtx) analyse() {
 		}
 	}
 	wc.static["cellTypesDistinct"] = distinct
+	// the ran flag of every task struct is an atomic.Bool
+	ranAtomic := true
+	for _, b := range fn.Blocks {
+		for _, in := range b.Instrs {
+			al, ok := in.(*ssa.Alloc)
+			if !ok {
+				continue
+			}
+			st, ok := al.Type().Underlying().(*types.Pointer).Elem().Underlying().(*types.Struct)
+			if !ok {
+				continue
+			}
+			for i := 0; i < st.NumFields(); i++ {
+				if st.Field(i).Name() == "ran" && st.Field(i).Type().String() != "sync/atomic.Bool" {
+					ranAtomic = false
+					wc.notes = append(wc.notes, "ran flag has type "+st.Field(i).Type().String())
+				}
+			}
+		}
+	}
+	wc.static["ranIsAtomic"] = ranAtomic
 }
 
 // rwOf collects the wrapper cells a closure (and its nested literals) loads
